@@ -68,6 +68,11 @@ func (b *buffer) get(v wireType) {
 		b.err = ErrMissingData
 		return
 	}
+	if s, ok := v.(*bindata); ok {
+		// a zero length field leaves the destination as is, make
+		// sure no earlier value adds to the width
+		*s = nil
+	}
 	if b.err = v.UnmarshalBinary(b.data[b.i:]); b.err != nil {
 		return
 	}
